@@ -114,9 +114,7 @@ def validate(seed, tier):
     for t in ops.op_tasks('quick'):
         if t['op'] in ('hamiltonian',) and t.get('model') in ('molecular', 'spin_molecular') and not t.get('optimize', True) and t['L'] > 4:
             continue
-        f = concrete.CHECKS['op_step'](dict(task=t, seed=seed, focus='C02'))
-        if f:
-            raise runner.HarnessError(f'concrete invariant check fails on the unchanged tree for {t["name"]}: {f}')
+        runner.concrete_check('op_step', dict(task=t, seed=seed, focus='C02'))
         n += 1
     return dict(concrete_operation_steps_checked=n)
 
